@@ -12,8 +12,9 @@ C04 lemmas: the tail-scanning read paths over a per-thread cache file.
 namespace Rip.Cache
 
 /-- the code as it is now: the loops leave at the largest window, the accumulator is reset per
-window, an incomplete cursor scan falls back; a tail that reached the start is not checked -/
-def current : Shape := { exitAtMax := true, resetAcc := true, headCheck := false, fallback := true }
+window, an incomplete cursor scan falls back; a tail that reached the start of the file must begin
+at seq 0 (the head check, in the code since the repair of `scan_tail`) -/
+def current : Shape := { exitAtMax := true, resetAcc := true, headCheck := true, fallback := true }
 
 /-! ### one-step unfoldings -/
 
@@ -521,11 +522,11 @@ theorem cursor_transparent (sh : Shape) (he : sh.exitAtMax = true) (hf : sh.fall
 /-- the code as it is now is transparent -/
 theorem selection_transparent_current (fs : List F) (limit w0 max : Nat) (hw : 0 < w0) :
     ∃ fuel, selectionFast current fs fs limit w0 max fuel = some (selectionTruth fs limit) :=
-  selection_transparent current rfl rfl fs (Or.inl rfl) limit w0 max hw
+  ⟨max - w0 + 1, selection_transparent_any current rfl rfl fs limit w0 max hw _ (Nat.le_refl _)⟩
 
 theorem cursor_transparent_current (fs : List F) (w0 max : Nat) (hw : 0 < w0) :
     ∃ fuel, cursorFast current fs fs w0 max fuel = some (cursorTruth fs) :=
-  cursor_transparent current rfl rfl fs (Or.inl rfl) w0 max hw
+  ⟨max - w0 + 1, cursor_transparent_any current rfl rfl fs w0 max hw _ (Nat.le_refl _)⟩
 
 /-- where `headCheck = false ∨ Valid fs` does matter: then no scan is rejected, so the answer really
 is computed from the cache (every finished selection loop has `scanned = true`) -/
